@@ -13,7 +13,7 @@ import warnings
 from ..ctx import Workload
 from ..oracles import pattern_ast as P
 from ..oracles import pattern_eval as E
-from .c10 import has_consecutive_indices, has_exists, validate_text
+from .c10 import has_consecutive_indices, has_exists, has_unsatisfiable_and, validate_text
 
 ID = "C09"
 LEVEL = "exploration"
@@ -62,7 +62,7 @@ def lib_eq(ctx, p, q, trees, what):
         elif any(has_consecutive_indices(t) for t in trees):
             key = "consecutive-index-steps-unmodelled"
         elif isinstance(e, ValueError) and "satisfiable with the same object type" in str(e) and where_raised(e).startswith("patterns.py"):
-            key = "cross-type-and-refused"
+            key = "cross-type-and-refused" if any(has_unsatisfiable_and(t) for t in trees) else "satisfiable-and-refused"
         ctx.violation(key, "equivalent_patterns raised %s on valid patterns (%s): %s" % (type(e).__name__, what, str(e)[:120]),
                       {"pattern1": p, "pattern2": q, "exception": repr(e)[:300], "raised_in": where_raised(e)})
         return None
@@ -606,7 +606,10 @@ NOT_SPELLINGS = [("ipv4-addr", "127.1", "127.0.0.1"), ("ipv4-addr", "10", "0.0.0
                  ("ipv4-addr", "1.2.3.4/1_6", "1.2.0.0/16"), ("ipv4-addr", "1.2.3.4/\u0668", "1.0.0.0/8"), ("ipv4-addr", "\u0661.2.3.4", "1.2.3.4"),
                  ("ipv4-addr", "1.2.3.4\n", "1.2.3.4"), ("ipv4-addr", " 1.2.3.4", "1.2.3.4"), ("ipv4-addr", "1.2.3.4/8 ", "1.0.0.0/8"),
                  ("ipv6-addr", "::1/+128", "::1"), ("ipv6-addr", "::1/ 8", "::/8"), ("ipv6-addr", "2001:db8::1/1_6", "2001::/16"),
-                 ("ipv6-addr", "::1/\u0668", "::/8"), ("ipv6-addr", "::1 ", "::1")]
+                 ("ipv6-addr", "::1/\u0668", "::/8"), ("ipv6-addr", "::1 ", "::1"),
+                 # a NUL inside the text: the platform's address functions raise ValueError (not OSError) for it
+                 ("ipv6-addr", "::1\u0000", "::1"), ("ipv6-addr", "2001:db8::\u00001", "2001:db8::1"), ("ipv6-addr", "::1\u0000/64", "::/64"),
+                 ("ipv4-addr", "1.2.3.4\u0000", "1.2.3.4"), ("ipv4-addr", "1.2.3.4\u0000/8", "1.0.0.0/8")]
 # constants of other kinds on the specially canonicalised paths: their text is not the compared value
 OTHER_KINDS = [("windows-registry-key", (("k", "key"),), ("bin", "QUJD"), ("bin", "qujd")), ("windows-registry-key", (("k", "key"),), ("hex", "ab"), ("hex", "cd")),
                ("ipv4-addr", (("k", "value"),), ("hex", "1234"), ("hex", "1234")), ("ipv4-addr", (("k", "value"),), ("bin", "MTIzNA=="), ("bin", "MTIzNA==")),
